@@ -76,8 +76,11 @@ def obs_diff_key(a, b, path="") -> Optional[str]:
     return None
 
 
-def drive(env, ops: List, meta, record: Optional[List], label: str, keep_state: bool = False):
-    """Apply ops; append digests to record. Returns an error tuple or None."""
+def drive(env, ops: List, meta, record: Optional[List], label: str, keep_state: bool = False, mask_at: Optional[int] = None):
+    """Apply ops; append digests to record. Returns an error tuple or None.
+
+    mask_at: read env.action_masks() (the call a policy makes) ONLY when the episode's step counter equals that value -
+    also while record is None - so that a value remembered from an earlier episode is not refreshed in between."""
     for i, op in enumerate(expand_ops(ops, meta)):
         try:
             if op[0] == "reset":
@@ -97,6 +100,10 @@ def drive(env, ops: List, meta, record: Optional[List], label: str, keep_state: 
                     if keep_state:
                         d["state_full"] = canon(norm_state(env.game.simulation.describe_state()))
                     record.append(d)
+                if mask_at is not None and env.game.step_counter == mask_at:
+                    m = [int(x) for x in env.action_masks()]
+                    if record is not None:
+                        record[-1]["env_mask"] = m
         except Exception as e:
             return (label, i, exc_sig(e), exc_msg(e))
     return None
@@ -126,6 +133,9 @@ def first_difference(r1: List[Dict], r2: List[Dict]) -> Optional[Tuple[str, str]
             return ("truncated", f"record {i}")
         if a.get("masks") != b.get("masks"):
             return ("action-mask", f"record {i}: action masks differ: {_mask_diff(a.get('masks'), b.get('masks'))}")
+        if a.get("env_mask") != b.get("env_mask"):
+            return ("env-action-mask", f"record {i}: env.action_masks() read at step {i} differs: "
+                                       f"{_mask_diff({'blue': a.get('env_mask')}, {'blue': b.get('env_mask')})}")
         if a["state"] != b["state"]:
             return (f"state{_state_key(a, b)}", f"record {i}: normalised simulation state differs {_state_paths(a, b)}")
     return None
@@ -222,12 +232,13 @@ def run_episode_isolation(case: Dict, res: CaseResult):
         return
     rec2: List[Dict] = []
     entropy.reset()
-    err2 = drive(ref_env, [["reset", s]] + A, meta, rec2, "fresh")
+    mask_at = case.get("mask_at")
+    err2 = drive(ref_env, [["reset", s]] + A, meta, rec2, "fresh", mask_at=mask_at)
     # run 1: used environment
     entropy.reset()
     env = build_env(cfg)
     pristine = norm_state(env.game.simulation.describe_state())
-    errh = drive(env, H, meta, None, "history")
+    errh = drive(env, H, meta, None, "history", mask_at=mask_at)
     dirty = 0
     try:
         dirty = _subsystem_diff(pristine, norm_state(env.game.simulation.describe_state()))
@@ -237,7 +248,7 @@ def run_episode_isolation(case: Dict, res: CaseResult):
     old_ids = reachable_ids(old_game)
     rec1: List[Dict] = []
     entropy.reset()
-    err1 = drive(env, [["reset", s]] + A, meta, rec1, "used")
+    err1 = drive(env, [["reset", s]] + A, meta, rec1, "used", mask_at=mask_at)
     if (err1 is None) != (err2 is None) or (err1 and err2 and err1[2] != err2[2]):
         res.violate(f"episode-leak:exception:{(err1 or err2)[2]}",
                     f"after history H the later episode raised {err1} but the fresh one {err2}")
@@ -628,6 +639,12 @@ def episode_case(draw, shipped: Optional[List[str]] = None):
     c["ops"] = [o for o in c["ops"] if o[0] != "reset"]
     c["seed"] = draw(SEEDS)
     c["mode"] = "episode"
+    if not shipped and draw(st.integers(0, 2)) == 0:
+        # a policy that asks for the action mask only now and then: always at the same step of an episode
+        c["spec"]["obs"]["masking"] = True
+        c["mask_at"] = draw(st.integers(1, 3))
+        if len(c["ops"]) < c["mask_at"]:
+            c["ops"] = c["ops"] + [["step", 0]] * (c["mask_at"] - len(c["ops"]))
     return c
 
 
